@@ -103,6 +103,19 @@ theorem generator_no_pending_text (s : LSpec) (modes : Array Mode)
     ∀ sg ∈ segsOf (lexAllG modes inp fuel n {} [] []).2.2, sg.kind = .pending → sg.start = sg.stop :=
   no_pending_text (genModes_wfModes hgen hok) (genModes_noAccum hgen hok hna) inp fuel n
 
+/-- **The hypothesis `genModes s = some modes` holds for every specification the front end
+accepts**: `genModes` is `none` only for the errors it models (names: `namesOK`; a rule without
+pairs: undefined `@push_mode` / `@emit` name, illegal action list; a cross-file conflict), never
+because a step of `Build` / `EmitLexer` panics or the model runs out of fuel, provided classes are
+written `lo ≤ hi` (`C02.generator_total` for every mode). -/
+theorem generator_total (s : LSpec) (hn : namesOK s = true)
+    (hp : ∀ r ∈ allRules s, (r.pairs s).isSome = true)
+    (hc : ∀ n ∈ modeNames s,
+      conflictFree ((modeRules s n).map (·.file)) ((modeRules s n).map (·.body)) = true)
+    (hcls : ∀ r ∈ allRules s, r.body.clsOK = true) :
+    ∃ modes, genModes s = some modes :=
+  genModes_total s hn hp hc hcls
+
 /-! ## Non-vacuity -/
 
 /-- `A = 'a'`, `@frag '"' @push_mode(S)`, `@mode S { STR = '"' @pop_mode   @frag [b-z] }`,
@@ -121,8 +134,18 @@ def exSpecModes : Array Mode := #[
 
 theorem exSpec_genModes : genModes exSpec = some exSpecModes := by decide +kernel
 
-/-- The hypotheses of the theorems above hold on it. -/
+/-- The hypotheses of the theorems above hold on it (also those of `generator_total`). -/
 example : exSpec.ok = true := by decide +kernel
+
+example : namesOK exSpec = true ∧ (∀ r ∈ allRules exSpec, (r.pairs exSpec).isSome = true) ∧
+    (∀ n ∈ modeNames exSpec, conflictFree ((modeRules exSpec n).map (·.file))
+      ((modeRules exSpec n).map (·.body)) = true) ∧
+    (∀ r ∈ allRules exSpec, r.body.clsOK = true) := by
+  refine ⟨by decide +kernel, ?_, by decide +kernel, ?_⟩
+  · have : (allRules exSpec).all (fun r => (r.pairs exSpec).isSome) = true := by decide +kernel
+    exact fun r hr => List.all_eq_true.1 this r hr
+  · have : (allRules exSpec).all (fun r => r.body.clsOK) = true := by decide +kernel
+    exact fun r hr => List.all_eq_true.1 this r hr
 
 /-- The model's arrays and the arrays lox writes for this specification (`C11.exModes`) are the
 same automata: equal after renumbering the states breadth first (`canonMode`). -/
